@@ -361,6 +361,38 @@ func (in *Interp) doAssert(c *smt.Term, label string) {
 			}
 		}
 	}
+	// cross-check a sample of the discharged obligations with the two other back ends: the complete
+	// query (path condition and negated assertion) is handed to z3 5.x and cvc5 one-shot; an answer
+	// other than unsat from either makes the harness inconclusive (a disagreement between solvers or
+	// a construct one of them does not accept must not pass silently)
+	if r == smt.Unsat {
+		limit := 3
+		if in.cfg.Tier == "thorough" {
+			limit = 25
+		}
+		s.mu.Lock()
+		do := s.Counters["crosscheck_sampled"] < limit
+		if do {
+			s.Counters["crosscheck_sampled"]++
+		}
+		s.mu.Unlock()
+		if do {
+			asserts := append(append([]*smt.Term{}, in.p.pc...), in.tb.Not(c))
+			for _, be := range []string{"z3-new", "cvc5"} {
+				r2, msg := smt.OneShot(be, in.cfg.TimeoutMS*3, asserts)
+				switch r2 {
+				case smt.Unsat:
+					s.count("crosscheck_agree:"+be, 1)
+				case smt.Unknown:
+					s.count("crosscheck_unknown:"+be, 1)
+				default:
+					s.mu.Lock()
+					s.Inconclusive = append(s.Inconclusive, fmt.Sprintf("assert %q: %s answers %v where z3 4.8 answers unsat (%s)", label, be, r2, msg))
+					s.mu.Unlock()
+				}
+			}
+		}
+	}
 	switch r {
 	case smt.Unsat:
 		s.mu.Lock()
